@@ -57,7 +57,7 @@ Notation node_run := (prun sup_done_ready_needs_exit node_tree).
 
 (* read from the source, discharged by computation: the supervisor runs with WithPropagatePanic, no service recovers panics itself,
    and the processor is one of the supervised services.  If node.go drops the option or wraps a service in a recover, this stops compiling. *)
-Lemma node_config : nt_propagate node_tree = true /\ no_service_recovers node_tree = true /\
+Lemma node_config : nt_propagate node_tree = true /\ sup_option_means_no_recover = true /\ no_service_recovers node_tree = true /\
                     exists sv, svc_named node_tree "processor"%string = Some sv /\ sv_recovers sv = false.
 Proof. vm_compute. repeat split. eexists. split; reflexivity. Qed.
 
